@@ -2,8 +2,10 @@ import Cellml.Basic.Sexp
 import Cellml.C09.Model
 
 /-! Channel C09:
-    `(C09 (keys "k0" "k1" …) (eqs (lhs (r…) (r'…)) (lhs (r…) (r'…) state free) …) (queries ((v…) recurse strip) …))`
-    → `((ok v…) | (err name) …)` — one reply item per query. Nodes are numbered by position in `keys`. -/
+    `(C09 (keys "k0" "k1" …) (eqs (lhs (r…) (r'…) q) (lhs (r…) (r'…) q state free) …) (queries ((v…) recurse strip) …))`
+    → `((ok v…) | (err name) …)` — one reply item per query. Nodes are numbered by position in `keys`; `q` (`true` /
+    `false`) says whether the right-hand side holds a `Quantity` (`Eqn.hasQ`; when `false` the list `r'` is not looked
+    at, the harness sends it empty). -/
 namespace C09
 open Sexp
 
@@ -11,11 +13,17 @@ def nats? (e : Sexp) : Option (List Nat) := do
   let xs ← listOf? e
   xs.mapM nat?
 
+def bool? : Sexp → Option Bool
+  | .atom "true" => some true
+  | .atom "false" => some false
+  | _ => none
+
 def eqn? : Sexp → Option Eqn
-  | .list [l, r, r'] => do
-      pure { lhs := ← nat? l, refs := ← nats? r, refsNum := ← nats? r' }
-  | .list [l, r, r', s, f] => do
-      pure { lhs := ← nat? l, refs := ← nats? r, refsNum := ← nats? r', ode := some (← nat? s, ← nat? f) }
+  | .list [l, r, r', q] => do
+      pure { lhs := ← nat? l, refs := ← nats? r, refsNum := ← nats? r', hasQ := ← bool? q }
+  | .list [l, r, r', q, s, f] => do
+      pure { lhs := ← nat? l, refs := ← nats? r, refsNum := ← nats? r', hasQ := ← bool? q,
+             ode := some (← nat? s, ← nat? f) }
   | _ => none
 
 def errName : Err → String
@@ -23,11 +31,6 @@ def errName : Err → String
   | .badRef => "badRef"
   | .notInGraph => "notInGraph"
   | .unfeasible => "unfeasible"
-
-def bool? : Sexp → Option Bool
-  | .atom "true" => some true
-  | .atom "false" => some false
-  | _ => none
 
 def query (key : Node → String) (eqs : List Eqn) : Sexp → Sexp
   | .list [vs, r, s] =>
